@@ -449,10 +449,13 @@ def bld_cases(ctx, n, flags_choices, ws=(1, 2, 3), ls=(1, 2, 3), lens=(8, 14, 20
     reqs = []
     for _ in range(n):
         fl = ctx.rng.choice(flags_choices)
-        # K (a service call that panics) needs the plain-Tokio start-up: only there the worker threads carry their index in their name
+        # K (a service call that panics), X (a service that is built again) and D need the plain-Tokio start-up when there are
+        # several workers: only there the worker threads carry their index in their name; with one worker the index is 0 anyway,
+        # and the worker runs on an Arbiter half of the time (its teardown after a fault is a different code path)
+        seed, W = ctx.rng.randrange(10 ** 9), ctx.rng.choice(ws)
         reqs.append("seed=%d;W=%d;L=%d;B=%s;S=%s;len=%d;flags=%s" % (
-            ctx.rng.randrange(10 ** 9), ctx.rng.choice(ws), ctx.rng.choice(ls), ctx.rng.choice(BLD_CHAINS),
-            "t" if ("k" in fl or "x" in fl or "d" in fl) else ctx.rng.choice("at"), ctx.rng.choice(lens), fl))
+            seed, W, ctx.rng.choice(ls), ctx.rng.choice(BLD_CHAINS),
+            "t" if (("k" in fl or "x" in fl or "d" in fl) and W > 1) else ctx.rng.choice("at"), ctx.rng.choice(lens), fl))
     p = subprocess.run([DRIVER, "bldgen"], input="\n".join(reqs) + "\n", stdout=subprocess.PIPE, text=True, timeout=600)
     raw = [l for l in p.stdout.split("\n") if l]
     assert len(raw) == len(reqs) and not any(l.startswith("DRIVER_ERROR") for l in raw), "bldgen failed: %s" % raw[:2]
@@ -573,7 +576,7 @@ def bld_pred(which):
                 if op[0] == "J":
                     cid += 1
                     tok_of[cid] = int(op[1:].split(":")[1])
-            elif op[0] in "cEAXY":
+            elif op[0] in "cEAXYS":
                 cid += 1
                 tok_of[cid] = int(op[1:])
                 if op[0] in "XY":
@@ -583,7 +586,7 @@ def bld_pred(which):
                     finished.add(cid)      # an abortive client: its service call ends by itself
                 if op[0] == "E":
                     backoff = True
-            elif op[0] in "fF":
+            elif op[0] in "fFz":
                 finished.add(int(op[1:]))
             elif op == "P":
                 paused = True
@@ -624,12 +627,12 @@ def bld_pred(which):
             if ("C04" in which or "C08" in which) and W >= 2 and L > 1:
                 if op and op[0] in "KJED" or blocked or paused or len(served) > 1 or any(a >= L for a in act[:W]) or len(act) < W:
                     rot = []
-                elif len(served) == 1 and op[0] == "c":
+                elif len(served) == 1 and op[0] in "cS":
                     rot.append(served[0][2])
                     if len(rot) >= W and len(set(rot[-W:])) < W:
                         return "step %d (%s): the last %d connections went to workers %s although no worker was at its limit (%s): not a rotation over %d workers" % (
                             k, op, W, rot[-W:], act, W)
-                elif op and op[0] not in "f+":
+                elif op and op[0] not in "fz+":
                     rot = []
             if faulted:
                 continue       # C02/C03/C04 speak about runs without a worker fault
@@ -682,11 +685,11 @@ def bld_probe(case, impl_trace, model_trace):
         return []
     served, closed, paused, cid = set(), set(), False, 0
     for o in ops:
-        if o[0] in "cEAXY":
+        if o[0] in "cEAXYS":
             cid += 1
             if o[0] == "A":
                 closed.add(cid)
-        elif o[0] in "fF":
+        elif o[0] in "fFz":
             closed.add(int(o[1:]))
         elif o == "P":
             paused = True
